@@ -38,7 +38,8 @@ FILLER = [
 
 
 def build(rng, cname, ctext, ctx, nl, with_multiline_string, with_filters):
-    """-> (text, expected line)"""
+    """-> (text, expected line); build.also = further lines that hold an operation which may legitimately be the failing one"""
+    build.also = []
     lines = ["let zz = [1]; let nn = null; fn ff(a) { a }", "let p0 = 0;"]
     n = 0
     in_fn = False
@@ -149,13 +150,25 @@ def build(rng, cname, ctext, ctx, nl, with_multiline_string, with_filters):
         shape = rng.randrange(5)
         head, call, tail = [("fn rz() {", "rz();", "}"), ("fn rz() {", "rz()", "}"), ("fn rz(n) {", "rz(n + 1);", "}"),
                             ("fn rz(n) {", "1 + rz(n + 1)", "}"), ("let rz = fn() {", "rz();", "};")][shape]
+        nloc = 0
+        if shape in (2, 3) and rng.random() < 0.6:
+            # several locals: the frame's slots, not the frame count or a pushed temporary, may be what no longer fits
+            nloc = rng.randint(1, 9)
+            if shape == 3 and rng.random() < 0.5:
+                call = "rz(n + 1) + w0"
         lines.append(head)
+        also = []       # with locals the stack may as well run out in one of their initialisers: any operation of the body
+        for j in range(nloc):
+            lines.append("  let w%d = n + %d;" % (j, j))
+            also.append(len(lines))
         for _ in range(rng.randint(0, 3)):
             lines.append("  # inside")
         if shape in (2, 3) and rng.random() < 0.5:
             lines.append("  let keep = n;")
+            also.append(len(lines))
         lines.append("  " + call)
         exp = len(lines)
+        build.also = also
         lines.append(tail)
         for _ in range(rng.randint(0, 3)):
             lines.append("# gap")
@@ -198,7 +211,7 @@ def run(chk):
         for ms in (False, True):
             for _ in range(reps * 4):
                 text, exp = build(rng, "stack-overflow", "rz()", "recursion", nl, ms, with_filters=False)
-                jobs.append(("stack-overflow", "recursion", nl, ms, text, exp, "rz()"))
+                jobs.append(("stack-overflow", "recursion", nl, ms, text, (exp, tuple(build.also)), "rz()"))
     cases = [Case("l%d" % i, j[4], {"steps": 100000}) for i, j in enumerate(jobs)]
     res = core.run_cases(cases)
     for i, (cname, ctx, nl, ms, text, exp, ctext) in enumerate(jobs):
@@ -216,9 +229,12 @@ def run(chk):
             continue
         chk.observed((cname, ctx, "crlf" if nl == "\r\n" else "lf", ms))
         if i % 211 == 0:
-            chk.sample({"construct": ctext, "context": ctx, "line_end": repr(nl), "expected_line": exp, "reported_line": r["rt"]["line"],
+            chk.sample({"construct": ctext, "context": ctx, "line_end": repr(nl), "expected_line": exp[0] if isinstance(exp, tuple) else exp, "reported_line": r["rt"]["line"],
                         "message": r["rt"]["msg"]})
-        if r["rt"]["line"] != exp:
+        allowed = ()
+        if isinstance(exp, tuple):
+            exp, allowed = exp
+        if r["rt"]["line"] != exp and r["rt"]["line"] not in allowed:
             why = "builtin" if cname.startswith("builtin") else "op"
             chk.violation("line|%s|%s|%s%s" % (why, ctx, "crlf" if nl == "\r\n" else "lf", "|multiline-string" if ms else ""),
                           "%s in context %s (%s%s): reported line %d, written on line %d  [%s]" % (
